@@ -86,6 +86,7 @@ class Fake:
         self.events = []  # ("begin"|"end", k)
         self.in_use = 0
         self.overlaps = []
+        self.on_begin = None  # hook: called inside f(...) after the invocation started (nested two-runner family)
         self.received = []  # wrapper level: per invocation what the primitive was handed (tag, own shots/precision, parameter values) + keywords
 
     def f(self, pubs):
@@ -104,6 +105,8 @@ class Fake:
             e = self.exceptions[k] = PrimFailure(k)
             raise e
         self.in_use += 1
+        if self.on_begin is not None:
+            self.on_begin(k)
         return FakeJob(self, k, tags)
 
     # qiskit BaseSamplerV2 / BaseEstimatorV2 surface used by the wrappers
@@ -191,8 +194,18 @@ def instrumented_runner_class(mp, run):
     def put(self, v):
         self.__dict__["_thread_counter"] = v
 
+    real_lock_types = (type(threading.Lock()), type(threading.RLock()))
+
     def init(self, *a, **k):
         orig.__init__(self, *a, **k)
+        # synchronisation objects that were NOT created through the rebound names (e.g. default arguments evaluated at
+        # import time) would block for real: each such object is replaced by ONE cooperative stand-in per object
+        # identity, so whatever aliasing the code under test has (two runners sharing a lock) is preserved
+        for name, val in list(self.__dict__.items()):
+            if isinstance(val, real_lock_types):
+                self.__dict__[name] = run.foreign.setdefault(id(val), coop.CoopLock(ctl=ctl))
+            elif isinstance(val, threading.Condition):
+                self.__dict__[name] = run.foreign.setdefault(id(val), coop.CoopCondition(ctl=ctl))
         run.register_runner(self)
 
     def spy(self, pubs):
@@ -203,10 +216,10 @@ def instrumented_runner_class(mp, run):
             raise
         except BaseException as e:
             if ctl.running and not ctl.abort:
-                run._record_exc(i, e)
+                run._record_exc(i, e, run.runners.index(self) if self in run.runners else 0)
             raise
         if ctl.running and not ctl.abort:
-            run._record_ok(i, out)
+            run._record_ok(i, out, run.runners.index(self) if self in run.runners else 0)
         return out
 
     return type("Instrumented" + orig.__name__, (orig,), {"_thread_counter": property(get, put), "__init__": init, "run": spy})
@@ -236,6 +249,10 @@ class Run:
         self.wrapper = None
         self.expected = {}  # wrapper level: tag -> (effective shots/precision, parameter values) as submitted
         self.runners = []
+        self.foreign = {}  # id(real lock object of the code under test) -> its cooperative stand-in
+        self.outs_by_runner = {}
+        self.fake2 = None
+        self.inner_calls = [[] for _ in range(n)]  # nested family: the calls made on the second runner, per thread
         self.sub_fail_steps = set()  # steps at which the primitive raised at submission (f-begin with choice 1)
         self.ctor_error = None
         # stays bound for the whole run: runners created later (lazily) by the code under test are instrumented as well
@@ -243,6 +260,17 @@ class Run:
         try:
             if self.level == "runner":
                 mp.BatchingMutexPrimitiveJobRunner(f=fake.f, batch_waiting_duration=wait)
+                if cfg.get("two"):
+                    # a second, independent runner instance in the same schedule (its own fake primitive)
+                    self.fake2 = Fake(ctl, "runner")
+                    mp.BatchingMutexPrimitiveJobRunner(f=self.fake2.f, batch_waiting_duration=wait)
+                    if cfg["two"] == "nested":
+                        # the primitive of the first runner uses the second runner while it executes a batch
+                        def on_begin(k):
+                            tags = [900 + k]
+                            self.inner_calls[ctl.current].append(tags)
+                            self.runners[1].run(list(tags))
+                        fake.on_begin = on_begin
             else:
                 cls = mp.BatchingMutexSampler if self.level == "sampler" else mp.BatchingMutexEstimator
                 self.wrapper = cls(fake, wait)
@@ -259,7 +287,7 @@ class Run:
         suffix = "" if k == 0 else str(k)
         for attr, nm in (("_entry_lock", "E"), ("_variable_lock", "V"), ("_internal_wait_condition", "I"), ("_external_wait_condition", "X")):
             o = r.__dict__.get(attr)
-            if o is not None:
+            if o is not None and getattr(o, "name", None) is None:
                 try:
                     o.name = nm + suffix
                 except Exception:
@@ -278,27 +306,31 @@ class Run:
         return {"E": d.get("_entry_lock", none), "V": d.get("_variable_lock", none), "I": d.get("_internal_wait_condition", none), "X": d.get("_external_wait_condition", none)}
 
     # ---- thread bodies
-    def _record_ok(self, i, out):
+    def _record_ok(self, i, out, ridx=0):
         try:
             res, idx = out
             k = getattr(res, "k", None)
-            self.outs[i].append(("ok", k, idx, res))
+            rec = ("ok", k, idx, res)
         except Exception as e:  # not a (result, index) pair
-            self.outs[i].append(("other", "bad-return", repr(out)))
+            rec = ("other", "bad-return", repr(out))
+        self.outs[i].append(rec)
+        self.outs_by_runner.setdefault(ridx, [[] for _ in self.outs])[i].append(rec)
 
-    def _record_exc(self, i, e):
-        if isinstance(e, PrimFailure):
-            self.outs[i].append(("exc", e.k, e))
-        else:
-            self.outs[i].append(("other", type(e).__name__, e))
+    def _record_exc(self, i, e, ridx=0):
+        rec = ("exc", e.k, e) if isinstance(e, PrimFailure) else ("other", type(e).__name__, e)
+        self.outs[i].append(rec)
+        self.outs_by_runner.setdefault(ridx, [[] for _ in self.outs])[i].append(rec)
 
     def _body(self, i):
         calls = self.cfg["calls"][i]
         if self.level == "runner":
+            targets = (self.cfg.get("targets") or {})
+
             def body():
-                for tags in calls:
+                for ci, tags in enumerate(calls):
                     try:
-                        self.runner.run(list(tags))  # the outcome is recorded by the instrumented run()
+                        r = self.runners[targets.get(f"{i}:{ci}", 0)] if self.runners else None
+                        r.run(list(tags))  # the outcome is recorded by the instrumented run()
                     except coop.CoopAbort:
                         raise
                     except AttributeError as e:
@@ -420,9 +452,11 @@ class Run:
         self.final_fields = self.shared_fields()
         self.ctl.stop()
 
-    def shared_fields(self):
-        d = self.runner.__dict__ if self.runner is not None else {}
-        o = self.objs
+    def shared_fields(self, r=None):
+        r = r or self.runner
+        d = r.__dict__ if r is not None else {}
+        none = _NoLock()
+        o = {"E": d.get("_entry_lock", none), "V": d.get("_variable_lock", none), "I": d.get("_internal_wait_condition", none), "X": d.get("_external_wait_condition", none)}
         bp = d.get("_batched_pubs")
         return dict(tc=d.get("_thread_counter"), ec=d.get("_entry_counter"), blen=d.get("_batch_length"),
                     bpubs=[tag_of(p) for p in bp] if isinstance(bp, list) else repr(bp),
@@ -456,6 +490,7 @@ def execute(cfg, policy, limit=None, faults=True) -> Run:
     limit = CURRENT_LIMIT[0] if limit is None else limit
     run = Run(cfg)
     ctl = run.ctl
+    lasso = {}
     try:
         step = 0
         while True:
@@ -469,6 +504,17 @@ def execute(cfg, policy, limit=None, faults=True) -> Run:
             if step >= limit:
                 run.finish("limit")
                 break
+            fk = getattr(policy, "fair_key", None)
+            fk = fk() if fk is not None else None
+            if fk is not None:
+                # the policy is in its deterministic round-robin tail (every enabled thread is scheduled in turn with the
+                # admissible choice): if the whole state repeats, this strongly fair schedule goes on for ever
+                key = (tuple(run.trace[-1]), tuple(thread_locals(run)), tuple(run.fake.status), fk)
+                if key in lasso:
+                    run.cycle = step - lasso[key]
+                    run.finish("livelock")
+                    break
+                lasso[key] = step
             pick = policy(run, trans, step)
             if pick is None:
                 run.finish("stopped")
@@ -545,6 +591,7 @@ def round_robin_policy(fail_at=(), fail_submit_at=()):
             return (t, 1 if (k in fail_submit_at and 1 in cs) else 0)
         return (t, cs[0])
 
+    pol.fair_key = lambda: ("rr", state["last"])
     return pol
 
 
@@ -596,7 +643,7 @@ def freeze_at_policy(rng, frozen, kind, obj, occurrence, hold=400, p_fail=0.0, b
     """Schedule (contention-biased) until the pending operation of thread `frozen` is (kind, obj) for the
     `occurrence`-th time; then keep that thread off the processor while anything else can run (at most `hold` steps: the
     others may poll forever on their timed waits); then round-robin."""
-    inner = contention_policy(rng, p_fail=p_fail) if base == "contention" else random_policy(rng, p_fail=p_fail)
+    inner = contention_policy(rng, p_fail=p_fail) if base == "contention" else (round_robin_policy() if base == "rr" else random_policy(rng, p_fail=p_fail))
     rr = round_robin_policy()
     st = {"phase": 0, "held": 0, "seen": 0, "lastops": -1}
 
@@ -619,6 +666,7 @@ def freeze_at_policy(rng, frozen, kind, obj, occurrence, hold=400, p_fail=0.0, b
             st["phase"] = 2
         return rr(run, trans, step)
 
+    pol.fair_key = lambda: rr.fair_key() if st["phase"] == 2 else None
     return pol
 
 
@@ -629,8 +677,36 @@ FREEZE_POINTS = [("acquire", "E"), ("tryacquire", "V"), ("release", "E"), ("rele
 
 
 # ----------------------------------------------------------------------------- oracles (implementation only)
+class _View:
+    """One runner of a two-runner run, looking like a Run to the oracle."""
+
+    def __init__(self, run, ridx, fake, calls):
+        self.cfg = dict(run.cfg, calls=calls)
+        self.level, self.fake, self.status, self.pending_at_end, self.schedule = run.level, fake, run.status, run.pending_at_end, run.schedule
+        self.outs = run.outs_by_runner.get(ridx, [[] for _ in calls])
+        self.wrapper_returns, self.expected = [[] for _ in calls], {}
+        r = run.runners[ridx] if ridx < len(run.runners) else None
+        self.final_fields = run.shared_fields(r)
+        self.cycle = getattr(run, "cycle", None)
+
+
 def oracle(run: Run, faults_injected=None):
     """Returns a list of (property, key, what) the run violates.  Independent of the Coq model."""
+    if isinstance(run, Run) and run.cfg.get("two"):
+        tg = run.cfg.get("targets") or {}
+        calls = run.cfg["calls"]
+        if run.cfg["two"] == "nested":
+            views = [_View(run, 0, run.fake, calls), _View(run, 1, run.fake2, run.inner_calls)]
+        else:
+            views = [_View(run, r, fk, [[c for ci, c in enumerate(th) if tg.get(f"{i}:{ci}", 0) == r] for i, th in enumerate(calls)])
+                     for r, fk in ((0, run.fake), (1, run.fake2))]
+        out, seen = [], set()
+        for vw in views:
+            for x in oracle(vw):
+                if x[:2] not in seen and not (x[1] == "call-missing"):
+                    seen.add(x[:2])
+                    out.append((x[0], x[1], "two runner instances in one schedule (" + run.cfg["two"] + "): " + x[2]))
+        return out
     v = []
     cfg = run.cfg
     fake = run.fake
@@ -648,6 +724,22 @@ def oracle(run: Run, faults_injected=None):
         prop = "C09" if dirty else "C08"
         v.append((prop, "hang-after-failure" if dirty else "deadlock",
                   f"no thread can take a step but calls are unfinished: pending {run.pending_at_end}, lock owners {run.final_fields['owners']}, wait sets {run.final_fields['waiters']}"))
+    if run.status == "livelock":
+        f = run.final_fields
+        dirty = bool(failed) and (f["exception_set"] or bool(f["waiters"]["I"]))
+        v.append(("C09" if dirty else "C08", "livelock",
+                  f"under the round-robin tail (every enabled thread scheduled in turn) the whole state repeats every {getattr(run, 'cycle', '?')} steps while calls are unfinished: "
+                  f"pending {run.pending_at_end}, lock owners {f['owners']}, wait sets {f['waiters']}"))
+    if run.status in ("deadlock", "livelock"):
+        # C06: a caller whose pubs the primitive has already processed never gets its results
+        for i, th in enumerate(calls):
+            j = len(run.outs[i])
+            if j < len(th) and th[j]:
+                ks = [k for k, inv in enumerate(fake.invocations) if set(th[j]) <= set(inv) and fake.status[k] is not None]
+                if ks:
+                    v.append(("C06", "call-never-returns", f"thread {i} call {j} (pubs {th[j]}): invocation {ks[0]} of the primitive has processed its pubs, but the call can never return "
+                                                           f"({run.status}: pending {run.pending_at_end}, wait sets {run.final_fields['waiters']})"))
+                    break
     if run.status == "limit":
         v.append(("C09" if failed else "C08", "step-limit", f"run did not finish within {len(run.schedule)} steps under a fair random schedule"))
     # ---- C06: every pub handed to the primitive at most once (exactly once at completion)
@@ -1096,7 +1188,10 @@ class Explorer:
                                     dict(pending=run.pending_at_end, fields=run.final_fields, invocations=run.fake.invocations, status=run.fake.status)))
             else:
                 self.other[f"{prop}:{key}"] = self.other.get(f"{prop}:{key}", 0) + 1
-        self.pending_model.append(run)
+        if cfg.get("two"):
+            ctx.tally("two-runners:not-compared-with-the-single-runner-model")
+        else:
+            self.pending_model.append(run)
         if len(self.pending_model) >= 400:
             self.flush()
         return mine
@@ -1218,6 +1313,25 @@ def run_property(ctx, pid):
                 cfg = dict(level="runner", linger=rng.choice([0, 0, 1]), calls=gen_calls(rng, nthreads=rng.choice([2, 2, 3]), max_calls=2))
                 z = rng.randrange(len(cfg["calls"]))
                 ex.account(execute(cfg, freeze_at_policy(rng, z, kind, obj, occ, p_fail=pf), faults=faults), "freeze")
+    # ---- a member frozen between releasing the variable lock and starting to wait (N1..N3) for the others' whole run
+    for rep in range(ctx.n(3, 12)):
+        for kind, obj in (("enter", "I"), ("wait_begin", "I"), ("release", "V")):
+            nthr = 2 + rep % 2
+            cfg = dict(level="runner", linger=rep % 2, calls=gen_calls(rng, nthreads=nthr, max_calls=1 + rep % 2, max_pubs=2))
+            for z in range(nthr):
+                ex.account(execute(cfg, freeze_at_policy(rng, z, kind, obj, 1, p_fail=0.0, base="rr"), faults=False), "freeze-member")
+    # ---- two runner instances alive in one schedule: independent (every call goes to one of them) and nested (the primitive
+    #      of the first uses the second while it executes a batch).  Locks are per instance: neither may block the other.
+    for i in range(ctx.n(16, 200)):
+        nthr = rng.choice([2, 2, 3])
+        cfg = dict(level="runner", linger=rng.choice([0, 0, 1]), calls=gen_calls(rng, nthreads=nthr, max_calls=2, max_pubs=2), two="independent")
+        cfg["targets"] = {f"{a}:{b}": rng.choice([0, 1]) for a, th in enumerate(cfg["calls"]) for b in range(len(th))}
+        pol = [random_policy(rng), contention_policy(rng), round_robin_policy()][i % 3]
+        ex.account(execute(cfg, pol, faults=False), "two-independent")
+    for i in range(ctx.n(8, 100)):
+        cfg = dict(level="runner", linger=rng.choice([0, 1]), calls=gen_calls(rng, nthreads=rng.choice([1, 2, 3]), max_calls=2, max_pubs=2), two="nested")
+        pol = [round_robin_policy(), random_policy(rng)][i % 2]
+        ex.account(execute(cfg, pol, faults=False), "two-nested")
     # ---- batch sizes: not all tiny (single callers and several callers whose sum crosses a threshold)
     def sized(sizes_per_thread):
         calls, tag = [], 1
@@ -1472,6 +1586,9 @@ def replay_property(ctx, pid, payload):
     for p, k, w in vs:
         if p == pid:
             ctx.violation("oracle", k, w, c)
+    if run.cfg.get("two"):
+        print("model-vs-impl: not compared (two runner instances in one schedule; the model is one instance)")
+        return
     m = model_traces_runs([run], (1 if ewt else 0, 1))[0]
     d = compare(run, m)
     print("model-vs-impl:", "agree on every step" if d is None else f"DIFFER {d}")
